@@ -2019,3 +2019,232 @@ Lemma gaps_witness_FC15b_repaired :
   shared [mkPart 38 47 1; mkPart 0 3 1] [mkPart 0 9 (-1); mkPart 36 47 (-1)] = 12 /\
   find_all_orfs g cds (Some area) 5 10 = Ok [].
 Proof. cbn zeta. repeat (split; [vm_compute; auto|]). vm_compute. reflexivity. Qed.
+
+(* ================================================================== third deepening pass: scan_orfs on a window of a circular
+   record told by ANY offset (negative = before the origin, zero, positive with the window running past the record end,
+   beyond the record length).  Model.ring_text / ring_window: the text of the window by positions modulo the record
+   length; the earlier extraction theorems (extract_orf_ring, scan_orfs_extract_ring) covered window_ok only, i.e. windows
+   inside the record or starting before the origin - the way find_all_orfs calls scan_orfs - and not a window told by its
+   real start coordinate that overshoots the record end *)
+Lemma znth_zrange a n i : 0 <= i < n -> znth (zrange a n) i = a + i.
+Proof.
+  intros Hi. unfold znth, zrange.
+  transitivity (nth (Z.to_nat i) (map (fun k => a + Z.of_nat k) (seq 0 (Z.to_nat n))) ((fun k => a + Z.of_nat k) 0%nat)).
+  { apply nth_indep. rewrite map_length, seq_length; lia. }
+  rewrite (map_nth (fun k => a + Z.of_nat k)). rewrite seq_nth by lia. lia.
+Qed.
+
+Lemma zlen_ring_text g off len : 0 <= len -> zlen (ring_text g off len) = len.
+Proof. intros H. unfold ring_text. rewrite zlen_map. apply zlen_zrange. exact H. Qed.
+
+Lemma znth_ring_text g off len i : 0 <= i < len ->
+  znth (ring_text g off len) i = znth g ((off + i) mod zlen g).
+Proof.
+  intros Hi. unfold ring_text. rewrite znth_map by (rewrite zlen_zrange; lia).
+  rewrite znth_zrange by lia. unfold znth. f_equal.
+Qed.
+
+Lemma zlen_ring_window g off len direction : 0 <= len -> zlen (ring_window g off len direction) = len.
+Proof.
+  intros H. unfold ring_window. destruct (direction =? -1); [rewrite zlen_revcomp|]; apply zlen_ring_text; exact H.
+Qed.
+
+Lemma chunk_ring_text g off end_ : window_ok (zlen g) off end_ -> chunk g off end_ = ring_text g off (end_ - off).
+Proof.
+  intros Hw. assert (Hlen : 0 <= end_ - off) by (destruct Hw; lia).
+  apply list_ext.
+  - rewrite zlen_chunk by exact Hw. rewrite zlen_ring_text by lia. reflexivity.
+  - rewrite zlen_chunk by exact Hw. intros i Hi. rewrite znth_chunk by assumption. rewrite znth_ring_text by lia.
+    f_equal. unfold wrap_pos. destruct (off + i <? 0) eqn:Hc.
+    + apply Z.mod_unique with (q := -1); destruct Hw; lia.
+    + apply Z.mod_unique with (q := 0); destruct Hw; lia.
+Qed.
+
+Lemma window_ring_window g off end_ direction : window_ok (zlen g) off end_ ->
+  window g off end_ direction = ring_window g off (end_ - off) direction.
+Proof. intros Hw. unfold window, ring_window. rewrite chunk_ring_text by exact Hw. reflexivity. Qed.
+
+Lemma extract_orf_ring_any g off len direction s e :
+  (direction = 1 \/ direction = -1) -> 0 <= s -> s <= e -> e < len -> e - s + 1 <= zlen g ->
+  extract g (orf_location direction off len (Some (zlen g)) (s, e)) =
+  slice (ring_window g off len direction) s (e + 1).
+Proof.
+  intros Hdir Hs Hse He Hlen.
+  assert (HN : 0 < zlen g) by lia.
+  rewrite (orf_location_shape direction off len (zlen g) s e Hdir HN Hse Hlen).
+  destruct Hdir as [-> | ->]; cbn [Z.eqb Pos.eqb]; unfold ring_window; cbn [Z.eqb Pos.eqb].
+  - set (x := s + off).
+    pose proof (Z.mod_pos_bound (x + zlen g) (zlen g) HN) as Hb.
+    pose proof (Z.div_mod (x + zlen g) (zlen g) ltac:(lia)) as Hd.
+    destruct (extract_ring_fwd g ((x + zlen g) mod zlen g) (e - s + 1) Hb ltac:(lia)) as [Hl Hnth].
+    apply list_ext.
+    + rewrite Hl, zlen_slice by (rewrite ?zlen_ring_text; lia). lia.
+    + rewrite Hl. intros i Hi. rewrite Hnth by exact Hi. rewrite znth_slice by lia.
+      rewrite znth_ring_text by lia. f_equal.
+      set (r := (x + zlen g) mod zlen g) in *. set (q := (x + zlen g) / zlen g) in *.
+      destruct (r + i <? zlen g) eqn:Hc.
+      * apply Z.mod_unique with (q := q - 1); lia.
+      * apply Z.mod_unique with (q := q); lia.
+  - set (x := len + off - e - 1).
+    pose proof (Z.mod_pos_bound (x + zlen g) (zlen g) HN) as Hb.
+    pose proof (Z.div_mod (x + zlen g) (zlen g) ltac:(lia)) as Hd.
+    destruct (extract_ring_rev g ((x + zlen g) mod zlen g) (e - s + 1) Hb ltac:(lia)) as [Hl Hnth].
+    apply list_ext.
+    + rewrite Hl, zlen_slice by (rewrite ?zlen_revcomp, ?zlen_ring_text; lia). lia.
+    + rewrite Hl. intros i Hi. rewrite Hnth by exact Hi. rewrite znth_slice by lia.
+      rewrite znth_revcomp by (rewrite zlen_ring_text; lia). rewrite zlen_ring_text by lia.
+      rewrite znth_ring_text by lia. f_equal. f_equal. cbn zeta.
+      set (r := (x + zlen g) mod zlen g) in *. set (q := (x + zlen g) / zlen g) in *.
+      destruct (r + (e - s + 1) - 1 - i <? zlen g) eqn:Hc.
+      * apply Z.mod_unique with (q := q - 1); lia.
+      * apply Z.mod_unique with (q := q); lia.
+Qed.
+
+(* the codons of an ORF of a frame, taken on their own, are an ORF from the first to the last codon *)
+Lemma is_orf_stretch ks s e : is_orf ks s e -> is_orf (firstn (e - s + 1) (skipn s ks)) 0 (e - s).
+Proof.
+  intros (Hse & Hs & He & Hmid & Hpre). unfold is_orf.
+  split; [lia|]. split; [|split; [|split]].
+  - rewrite nth_error_firstn_lt by lia. rewrite nth_error_skipn_add, Nat.add_0_r. exact Hs.
+  - rewrite nth_error_firstn_lt by lia. rewrite nth_error_skipn_add. replace (s + (e - s))%nat with e by lia. exact He.
+  - intros j Hj. rewrite nth_error_firstn_lt by lia. rewrite nth_error_skipn_add. apply Hmid. lia.
+  - intros j Hj. lia.
+Qed.
+
+(* the text of an ORF of a frame of the window, cut out of the window, passes the run-time test orf_text_b *)
+Lemma orf_text_of_frame_orf W frame s e :
+  is_orf (kinds (skipn frame (map upper W))) s e ->
+  orf_text_b (slice W (Z.of_nat frame + 3 * Z.of_nat s) (Z.of_nat frame + 3 * Z.of_nat e + 2 + 1)) = true.
+Proof.
+  intros Horf. pose proof Horf as (Hse & _ & He & _).
+  apply kinds_nth_bound in He. rewrite skipn_length, map_length in He.
+  unfold slice.
+  replace (Z.to_nat (Z.of_nat frame + 3 * Z.of_nat e + 2 + 1 - (Z.of_nat frame + 3 * Z.of_nat s)))
+    with (3 * ((e - s) + 1))%nat by lia.
+  replace (Z.to_nat (Z.of_nat frame + 3 * Z.of_nat s)) with (frame + 3 * s)%nat by lia.
+  unfold orf_text_b. cbn zeta. rewrite kinds_of_stretch.
+  apply andb_true_intro. split.
+  - rewrite firstn_length, skipn_length.
+    replace (Nat.min (3 * (e - s + 1)) (length W - (frame + 3 * s))) with (3 * (e - s + 1))%nat by lia.
+    rewrite Nat2Z.inj_mul. rewrite Z.mul_comm. rewrite Z_mod_mult. reflexivity.
+  - apply is_orf_stretch in Horf.
+    assert (Hl : length (firstn (e - s + 1) (skipn s (kinds (skipn frame (map upper W))))) = (e - s + 1)%nat).
+    { destruct Horf as (_ & _ & Hk & _).
+      assert (Hk' : (e - s < length (firstn (e - s + 1) (skipn s (kinds (skipn frame (map upper W))))))%nat)
+        by (apply nth_error_Some; congruence).
+      pose proof (firstn_le_length (e - s + 1) (skipn s (kinds (skipn frame (map upper W))))). lia. }
+    rewrite Hl. replace (e - s + 1 - 1)%nat with (e - s)%nat by lia.
+    apply is_orf_b_spec. exact Horf.
+Qed.
+
+Lemma orf_location_shape_ok direction offset n N s e :
+  (direction = 1 \/ direction = -1) -> 0 < N -> 0 <= s -> s < e -> e - s + 1 <= N ->
+  ring_shape_ok N direction (orf_location direction offset n (Some N) (s, e)) = true.
+Proof.
+  intros Hdir HN Hs Hse Hlen.
+  destruct (orf_location_ring direction offset n N s e Hdir HN Hs Hse Hlen) as (Hll & Hall & a & b & Hshape).
+  cbn zeta in *. destruct Hshape as [H | [[Hd H] | [Hd H]]]; rewrite H in Hll, Hall |- *;
+    unfold loc_len, part_len in Hll; cbn [fold_right ps pe] in Hll.
+  - inversion Hall as [|? ? Hp _]; subst. cbn [ps pe pst] in Hp. unfold ring_shape_ok. cbn [ps pe pst]. lia.
+  - subst direction. inversion Hall as [|? ? Hp Hr]; subst. inversion Hr as [|? ? Hq _]; subst.
+    cbn [ps pe pst] in Hp, Hq. unfold ring_shape_ok. cbn [ps pe pst].
+    change (1 =? -1) with false. cbn iota. lia.
+  - subst direction. inversion Hall as [|? ? Hp Hr]; subst. inversion Hr as [|? ? Hq _]; subst.
+    cbn [ps pe pst] in Hp, Hq. unfold ring_shape_ok. cbn [ps pe pst].
+    change (-1 =? -1) with true. cbn iota. lia.
+Qed.
+
+(* C15_coordinates for EVERY way of telling the window's position: any integer offset (negative, zero, positive with the
+   window running past the record end, beyond the record length), any window length; every location returned by scan_orfs
+   comes from an ORF [a, b] of a frame of the upper-cased window text, and when that ORF is not longer than the record
+   (always so when the window is not longer than the record) the location extracts from the record to exactly the window
+   text from a to b, that text passes the ORF test, the location has the ring shape (inside [0, N), at most two parts
+   split at the origin, in transcription order) and occupies exactly the ORF's positions on the ring *)
+Lemma scan_orfs_ring_any g off len direction minimum l :
+  0 <= len -> (direction = 1 \/ direction = -1) ->
+  In l (scan_orfs (ring_window g off len direction) direction off minimum (Some (zlen g))) ->
+  exists frame a b, (frame <= 2)%nat /\
+    In (a, b) (frame_orfs (map upper (ring_window g off len direction)) frame minimum) /\
+    0 <= a /\ a < b /\ b < len /\
+    l = orf_location direction off len (Some (zlen g)) (a, b) /\
+    (b - a + 1 <= zlen g ->
+       extract g l = slice (ring_window g off len direction) a (b + 1) /\
+       orf_text_b (extract g l) = true /\
+       ring_shape_ok (zlen g) direction l = true /\
+       positions l = expected_positions direction off len (Some (zlen g)) (a, b)).
+Proof.
+  intros Hlen Hdir Hin. unfold scan_orfs in Hin. apply sort_by_In in Hin.
+  pose proof (zlen_ring_window g off len direction Hlen) as Hn.
+  rewrite zlen_map, Hn in Hin.
+  apply in_flat_map in Hin. destruct Hin as (frame & Hframe & Hin).
+  apply in_map_iff in Hin. destruct Hin as ([a b] & Hl & Hc).
+  assert (Hf : (frame <= 2)%nat) by (cbn in Hframe; lia).
+  pose proof (frame_orfs_bounds _ _ _ _ Hf Hc) as Hb. rewrite zlen_map, Hn in Hb. cbn [fst snd] in Hb.
+  pose proof Hc as Hc'. apply frame_orfs_spec in Hc'. destruct Hc' as (s & e & Horf & Hab & _).
+  pose proof (f_equal fst Hab) as Ha. pose proof (f_equal snd Hab) as Hbb.
+  destruct (orf_coords_frame (Z.of_nat frame) s e) as [E1 E2]. rewrite E1 in Ha. rewrite E2 in Hbb.
+  cbn [fst snd] in Ha, Hbb. clear E1 E2 Hab.
+  assert (Hse : (s < e)%nat) by (destruct Horf; assumption).
+  exists frame, a, b. split; [exact Hf|]. split; [exact Hc|]. split; [lia|]. split; [lia|]. split; [lia|].
+  split; [symmetry; exact Hl|]. intros Hfit. subst l.
+  assert (Hex : extract g (orf_location direction off len (Some (zlen g)) (a, b)) =
+                slice (ring_window g off len direction) a (b + 1)).
+  { apply extract_orf_ring_any; try assumption; lia. }
+  split; [exact Hex|]. split; [|split].
+  - rewrite Hex, Ha, Hbb. apply orf_text_of_frame_orf. exact Horf.
+  - apply orf_location_shape_ok; try assumption; lia.
+  - apply positions_orf_location; try assumption; lia.
+Qed.
+
+Lemma zl_eqb_refl : forall a, zl_eqb a a = true.
+Proof. induction a as [|x a IH]; [reflexivity|]. cbn [zl_eqb]. rewrite Z.eqb_refl. exact IH. Qed.
+
+(* the ORFs the run-time specification enumerates (text_orfs) contain every ORF of every frame *)
+Lemma text_orfs_In useq frame s e : (frame <= 2)%nat -> is_orf (kinds (skipn frame useq)) s e ->
+  In (orf_coords (Z.of_nat frame) (s, e)) (text_orfs useq).
+Proof.
+  intros Hf Horf. unfold text_orfs. apply in_flat_map. exists frame. split.
+  - cbn [In]. lia.
+  - apply in_map. apply orfs_spec_In. exact Horf.
+Qed.
+
+(* hence the four verdicts that run id 13 (Model.spec_scan_ring) adds to spec_scan are TRUE of the model's own output, for
+   every window not longer than the record, wherever it begins: a failure of one of them on an implementation output is
+   a disagreement between implementation and model or a violation of the property, never an artefact of the test *)
+Lemma scan_ring_spec_ok g off len direction minimum :
+  0 <= len -> len <= zlen g -> (direction = 1 \/ direction = -1) ->
+  let W := ring_window g off len direction in
+  let out := scan_orfs W direction off minimum (Some (zlen g)) in
+  forallb (ring_shape_ok (zlen g) direction) out = true /\
+  forallb (fun l => orf_text_b (extract g l)) out = true /\
+  forallb (fun l => existsb (fun c => zl_eqb (extract g l) (slice W (fst c) (snd c + 1))) (text_orfs (map upper W))) out = true /\
+  zl_eqb W (ring_window g off (zlen W) direction) = true.
+Proof.
+  intros Hlen Hfit Hdir. cbn zeta.
+  assert (Hall : forall l, In l (scan_orfs (ring_window g off len direction) direction off minimum (Some (zlen g))) ->
+            ring_shape_ok (zlen g) direction l = true /\ orf_text_b (extract g l) = true /\
+            existsb (fun c => zl_eqb (extract g l) (slice (ring_window g off len direction) (fst c) (snd c + 1)))
+                    (text_orfs (map upper (ring_window g off len direction))) = true).
+  { intros l Hin. destruct (scan_orfs_ring_any g off len direction minimum l Hlen Hdir Hin)
+      as (frame & a & b & Hf & Hc & Ha & Hab & Hb & _ & Hrest).
+    destruct (Hrest ltac:(lia)) as (Hex & Htext & Hshape & _).
+    split; [exact Hshape|]. split; [exact Htext|].
+    apply existsb_exists. exists (a, b). split.
+    - apply frame_orfs_spec in Hc. destruct Hc as (s & e & Horf & -> & _). apply text_orfs_In; assumption.
+    - cbn [fst snd]. rewrite Hex. apply zl_eqb_refl. }
+  split; [apply forallb_forall; intros l Hin; apply Hall; exact Hin|].
+  split; [apply forallb_forall; intros l Hin; apply Hall; exact Hin|].
+  split; [apply forallb_forall; intros l Hin; apply Hall; exact Hin|].
+  rewrite zlen_ring_window by exact Hlen. apply zl_eqb_refl.
+Qed.
+
+Lemma scan_ring_spec_verdict g off len direction minimum :
+  0 <= len -> len <= zlen g -> (direction = 1 \/ direction = -1) ->
+  let W := ring_window g off len direction in
+  skipn 3 (spec_scan_ring g W direction off minimum (scan_orfs W direction off minimum (Some (zlen g)))) = [1; 1; 1; 1].
+Proof.
+  intros Hlen Hfit Hdir. cbn zeta.
+  destruct (scan_ring_spec_ok g off len direction minimum Hlen Hfit Hdir) as (H1 & H2 & H3 & H4). cbn zeta in H1, H2, H3, H4.
+  unfold spec_scan_ring, spec_scan_on. cbn zeta. cbn [app skipn].
+  rewrite H1, H2, H3, H4. reflexivity.
+Qed.
